@@ -13,7 +13,13 @@ def corpus():
     for f in files:
         src = open(f).read()
         feats = {"eof": True, "yields": True}
-        yield {"name": os.path.basename(f), "src": src, "feats": feats, "args": feature_args(feats), "origin": "corpus"}
+        # a regression program may bring directed inputs along: "// inputs: <text> | <text>" (Python string escapes allowed)
+        directed = []
+        for line in src.splitlines():
+            if line.startswith("// inputs:"):
+                directed += [x.strip().encode("latin-1").decode("unicode_escape").encode("latin-1").hex() for x in line[len("// inputs:"):].split("|")]
+        yield {"name": os.path.basename(f), "src": src, "feats": feats, "args": feature_args(feats), "origin": "corpus",
+               **({"inputs": directed} if directed else {})}
 
 
 def generated(seed, n, **fixed):
